@@ -13,6 +13,7 @@ package gateway
 //@   requires[request] in != nil
 //@   modifies *
 //@   ensures[ttl_floor] ghost("lock_calls") > old(ghost("lock_calls")) ==> ghost("lock_ttl") >= 1000000000
+//@   ensures[ttl_is_the_requested_one_floored_and_capped] ghost("lock_calls") > old(ghost("lock_calls")) ==> ghost("lock_ttl") == 1000000 * min(max(old(in.TTL), 1000), 9223372036854)
 //@   ensures[wait_not_cancellable] ghost("lock_calls") > old(ghost("lock_calls")) ==> ghost("lock_ctx_cancellable") == 0
 //@   ensures[empty_key_rejected] len(old(in.Key)) == 0 ==> err != nil && ghost("lock_calls") == old(ghost("lock_calls"))
 
